@@ -7,6 +7,7 @@ Trace entries used (appended by the harness while the real code runs):
   ('expressed', i, us)       caller i is about to call express (inside its own task step)
   ('rx', label, us)          the library starts processing packet `label`
   ('vstart', i, us) / ('vdone', i, us)   the validator given to Interest i starts / returns
+  ('awaited', i, us)         the caller awaits the result only now (late await)
   ('quiescent',)             the ready queue is empty
 
 An Interest is *closed* by the first event that can complete it (its first candidate).  All
@@ -45,6 +46,7 @@ def acceptable_outcomes(trace, interests, packets, legacy=False, deadline_valida
     dl = {}        # i -> deadline us
     val = {}       # i -> label being validated
     val_idx = {}   # i -> trace index at which the Data was accepted for validation
+    awaited = {}   # i -> clock reading at which the caller first awaited the result (only recorded when it does so late)
     cands = {i: [] for i in interests}
     soft = {i: [] for i in interests}   # outcomes tolerated (statement silent) but that do not close the Interest
     down = False
@@ -77,6 +79,8 @@ def acceptable_outcomes(trace, interests, packets, legacy=False, deadline_valida
                         cands[i].append((idx, out))
                 elif pkt['kind'] == 'nack' and pkt['comps'] == sp['comps'] and pkt.get('digest') == sp.get('digest'):
                     cands[i].append((idx, f"nack:{pkt['reason']}"))
+        elif k == 'awaited':
+            awaited[e[1]] = e[2]
         elif k == 'vdone':
             i = e[1]
             if st.get(i) == 'validating':
@@ -125,4 +129,9 @@ def acceptable_outcomes(trace, interests, packets, legacy=False, deadline_valida
                 k2 = later[0][0]
                 end2 = window_end(k2)
                 acc[i] |= {o for (ix, o) in later if ix <= end2} | {o for (ix, o) in soft[i] if ix <= end2}
+    for i, t in awaited.items():
+        if i in dl and t >= dl[i] and i in acc:
+            # the caller only started waiting at / after the deadline: the library documents a grace period for this
+            # "send, compute, then fetch" pattern, the statement is silent -> every candidate outcome is acceptable
+            acc[i] |= {o for (_ix, o) in cands[i]} | {o for (_ix, o) in soft[i]}
     return acc, first
